@@ -275,6 +275,9 @@ pub(crate) struct BudgetEnforcer {
     defined_anchors: FastHashSet<usize>,
     containers: SmallVec<[ContainerState; 64]>,
     policy: EnforcingPolicy,
+    /// True when the caller replays the anchored node after every alias and feeds the
+    /// replayed events to `observe` as well (the alias itself then takes no key/value slot).
+    alias_replay_follows: bool,
 }
 
 #[derive(Clone, Copy, Debug)]
@@ -298,7 +301,14 @@ impl BudgetEnforcer {
             defined_anchors: FastHashSet::with_capacity(256),
             containers: SmallVec::new(),
             policy,
+            alias_replay_follows: false,
         }
+    }
+
+    /// The caller replays the anchored node after each alias and observes those events too.
+    pub(crate) fn with_alias_replay(mut self) -> Self {
+        self.alias_replay_follows = true;
+        self
     }
 
     /// Observe a parser [`Event`], updating the internal counters.
@@ -382,7 +392,9 @@ impl BudgetEnforcer {
                         aliases: self.report.aliases,
                     });
                 }
-                self.handle_alias();
+                if !self.alias_replay_follows {
+                    self.handle_alias();
+                }
             }
             Event::DocumentStart(_explicit) => {
                 if self.policy == EnforcingPolicy::PerDocument {
